@@ -1,6 +1,7 @@
 import os, sys, json
 sys.path.insert(0, os.path.dirname(__file__))
 import alloc_common as ac
+import reconciler_part
 import ctrl_common as cc
 
 ALLOC_SIGS = {'alloc-not-in-exactly-one-pool','alloc-pool-name-wrong','alloc-pool-not-compatible','alloc-from-non-autoassign-pool','alloc-wrong-families','alloc-frompool-other-pool','alloc-assign-not-exact','alloc-unpinned-before-pinned','alloc-priority-order'}
@@ -20,6 +21,8 @@ def run(ctx):
                len({json.dumps([{k: v for k, v in e.items() if k != "obs"} for e in c["in"]], sort_keys=True) for c in ccases if len(c["in"]) >= 5})
     ctx.cov["correspondence"] = {"allocator_histories": len(acases), "controller_histories": len(ccases), "operations_and_events": nsteps,
                                  "mismatches": len(amism) + len(cmism), "allocator_counters": ast, "controller_counters": cst}
+    # PoolReconciler / ConfigReconciler glue (cfg group): what the allocator is handed is config.For of the current cluster state
+    n_rec, st_rec = reconciler_part.run_reconciler(ctx, None)
     ctx.trusted += ["model covers internal/allocator/allocator.go: Assign, Unassign, Allocate, AllocateFromPool, AllocateFromPoolForAdditionalFamily, SetPools, checkSharing, sharingOK, poolFor, isPoolCompatibleWithService, pinnedPoolsForService, findBestPoolForService, getFreeIPsFromPool/getIPFromCIDR, poolCount, updatePoolStats, CountersForPool; allocation.go selectIPsForFamilyAndPolicy",
                     "the allocator's derived maps (sharingKeyForIP, portsInUse, servicesOnIP, poolIP*InUse) are modelled as functions of the service->allocation map; their agreement with the Go maps is checked after every operation by checkSharing probes and counters (correspondence), not proved",
                     "checked nondeterminism: allocation results are taken from the implementation and validated by allocate_spec/from_pool_spec/additional_spec; sort.Slice in sortPools and map iteration order are not modelled",
